@@ -1,6 +1,7 @@
 (* C04 — reports partition agreed performables within batch, gas and upkeep limits.
    Property theorems only; proofs live in Proofs/ReportsProofs.v. *)
 From Verif Require Import Base.Util Model.Reports Proofs.ReportsProofs Gen.Generated.
+From Verif Require Import Base.GenIR Gen.GeneratedTr Proofs.GenTrReports.
 Open Scope N_scope.
 
 (* Full statement: for every off-chain configuration with batch size >= 1 (gas limit and
@@ -56,6 +57,60 @@ Theorem C04_gen_report_count_covers_agreed :
   (OutcomeAgreedPerformablesLimit <= MaxReportCount)%Z.
 Proof. vm_compute. discriminate. Qed.
 Print Assumptions C04_gen_report_count_covers_agreed.
+
+Section GenTie.
+Local Open Scope Z_scope.
+(* ---- Tie to the source by translation (Gen/GeneratedTr.v, regenerated from /repo on every run by gen/translate.go) ----
+   g_* are the decision terms translated from the CURRENT Go code: every condition, the branch structure and which
+   white-listed effect statement runs on which path.  The theorems below state that the model's functions - about
+   which every theorem above speaks - are the interpretation of these terms (Z scope inside the generated terms). *)
+(* Reports, loop body: the generated term flushes exactly when the model's flush_cond holds (batch full, or non-empty batch and gas + overhead over the limit with uint64 wrap-around, or upkeep id already in the batch) *)
+Theorem C04_gen_flush_condition :
+  forall c s p e,
+  reports_body_atoms c s p e =
+  if flush_cond true c s p then (if e then ([], RetO 1) else ([1; 2; 3; 4; 5; 6; 7], Fall)) else ([5; 6; 7], Fall).
+Proof. exact reports_flush_cond_gen. Qed.
+Print Assumptions C04_gen_flush_condition.
+
+(* Reports, loop body with the encoder succeeding: the model's rstep is the interpretation of the generated body *)
+Theorem C04_gen_loop_decisions :
+  forall c s p,
+  rstep true c s p =
+  match reports_body_atoms c s p false with
+  | ([1; 2; 3; 4; 5; 6; 7], Fall) => radd c (mkR [] 0 [] (r_acc s ++ [r_cur s])) p
+  | ([5; 6; 7], Fall) => radd c s p
+  | _ => s
+  end.
+Proof. exact gen_reports_body. Qed.
+Print Assumptions C04_gen_loop_decisions.
+
+(* Reports, loop body with the encoder failing: (reports so far, error) is returned exactly when a flush is due *)
+Theorem C04_gen_loop_encoder_error :
+  forall c s p,
+  reports_body_atoms c s p true = if flush_cond true c s p then ([], RetO 1) else ([5; 6; 7], Fall).
+Proof. exact gen_reports_body_encoder_error. Qed.
+Print Assumptions C04_gen_loop_encoder_error.
+
+(* Reports, after the loop: a non-empty running batch is emitted - the model's rfinish *)
+Theorem C04_gen_final_flush :
+  forall s,
+  rfinish s =
+  match g_reports false (Z.of_nat (length (r_cur s))) false with
+  | ([1; 2], RetO 3) => r_acc s ++ [r_cur s]
+  | _ => r_acc s
+  end.
+Proof. exact gen_reports_finish. Qed.
+Print Assumptions C04_gen_final_flush.
+
+(* Reports, whole function: decode error returns (nil, err); an encoder error at the final flush returns (reports, err) *)
+Theorem C04_gen_error_returns :
+  forall n (e : bool),
+  g_reports true n e = ([], RetO 1) /\
+  (0 < n -> g_reports false n true = ([1], RetO 2)).
+Proof. exact gen_reports_errors. Qed.
+Print Assumptions C04_gen_error_returns.
+
+End GenTie.
 
 (* Non-vacuity: a concrete configuration and a 5-element list with a repeated upkeep id and
    an over-limit gas allocation satisfy the hypotheses, and the model produces 4 reports. *)
